@@ -22,8 +22,10 @@ func TestC03(t *testing.T) {
 	runSimProp(t, &simProp{
 		ID: "C03",
 		Cfg: core.SimConfig{
-			Prop:   "C03",
-			Owned:  core.Own(core.CatScan, core.CatPanicQuery, core.CatBatchQuery, core.CatCorrupt),
+			Prop: "C03",
+			// inv.cache: the cached table list (and its removal index) IS the iteration state of the
+			// "registered" strategy; C07 owns it too
+			Owned:  core.Own(core.CatScan, core.CatPanicQuery, core.CatBatchQuery, core.CatCorrupt, core.CatInvCache),
 			Verify: core.FullVerify,
 
 			ScanRegistered: true,
@@ -34,7 +36,7 @@ func TestC03(t *testing.T) {
 			g.DeadFilterTargets = true
 			g.TargetRemovalPct = 40
 		},
-		Rule: "relation-heavy world histories (so that multi-table nodes, empty, retired and recycled tables exist) interleaved with queries: generated filter (mask/without/exclusive/any/noneof/anynot, and/or/xor/not nesting <= 3, relation filters with alive/dead/zero targets, plain or registered) and a generated script of Count, EntityAt(i), EntityAt(all i), Next, Step(k) with k from 1 to beyond the end, Close; oracle: a pure-Next pass over an identical query gives the reference order; the visited set must equal the model's matching set (relation-less entities under a top-level relation filter: may), every entity once; Count == visited; EntityAt(i) == i-th visited; every Next/Step lands on the entity at the same ordinal and returns false exactly past the end; at each position Entity/Has/Get/Mask/Ids/Relation agree with the World's accessors and the model; the Q-variant queries of all batch calls are checked the same way (exactly the affected entities, new components accessible); non-trivial = the result spans >= 2 tables, or a Step was executed on a non-empty result",
+		Rule: "relation-heavy world histories (so that multi-table nodes, empty, retired and recycled tables exist) interleaved with queries: generated filter (mask/without/exclusive/any/noneof/anynot, and/or/xor/not nesting <= 3, relation filters with alive/dead/zero targets, plain or registered) and a generated script of Count, EntityAt(i), EntityAt(all i), Next, Step(k) with k from 1 to beyond the end, Close; oracle: a pure-Next pass over an identical query gives the reference order; the visited set must equal the model's matching set (relation-less entities under a top-level relation filter: may), every entity once (hook: the cached table list of every registered filter equals the list recomputed from scratch and its removal index is consistent - the state the cached iteration strategy walks; co-owned with C07); Count == visited; EntityAt(i) == i-th visited; every Next/Step lands on the entity at the same ordinal and returns false exactly past the end; at each position Entity/Has/Get/Mask/Ids/Relation agree with the World's accessors and the model; the Q-variant queries of all batch calls are checked the same way (exactly the affected entities, new components accessible); non-trivial = the result spans >= 2 tables, or a Step was executed on a non-empty result",
 		Observe: func(tr *tracker, op *core.Op) {
 			f := tr.sim.Flags
 			if f["query.tables"] >= 2 {
